@@ -234,11 +234,33 @@ pub fn byte_value_histories(ctx: &mut Ctx, opts: &RunOpts) {
     }
 }
 
+/// Histories in which one signing call FAILS and the history goes on: the records handed out by the later
+/// successful updates are judged like any other (a failed update must not poison what follows).
+pub fn fault_histories(ctx: &mut Ctx, count: u64, opts: &RunOpts) {
+    let ks = kinds();
+    let count = ctx.vol(count);
+    for i in 0..count {
+        if !ctx.mine(i) {
+            continue;
+        }
+        if ctx.expired() {
+            return;
+        }
+        let mut r = rng_for(ctx.seed, &["fault-hist"], i);
+        let (kt, scheme) = ks[(i / ctx.nshards) as usize % ks.len()];
+        let mut h = { let len = 6 + below(&mut r, 14) as usize; random_history(&mut r, scheme, len) };
+        h.fault = Some((if below(&mut r, 4) == 0 { Signer::Other } else { Signer::Own }, 1 + below(&mut r, 8)));
+        run_hist_kt(ctx, kt, true, &h, opts);
+        ctx.count("fault-histories");
+    }
+}
+
 pub fn c05(ctx: &mut Ctx) {
     let opts = RunOpts::default();
     let q = ctx.quick();
     exhaustive_len1(ctx, false, &opts, &all);
     byte_value_histories(ctx, &opts);
+    fault_histories(ctx, if q { 400 } else { 20_000 }, &opts);
     builder_plans(ctx, &opts);
     if q {
         exhaustive_sub(ctx, 2, &["built-typical", "decoded-size-299"], &opts, &all);
@@ -271,6 +293,8 @@ pub fn c04(ctx: &mut Ctx) {
     let opts = RunOpts::default();
     exhaustive_len1(ctx, false, &opts, &all);
     builder_plans(ctx, &opts);
+    byte_value_histories(ctx, &opts);
+    fault_histories(ctx, if q { 300 } else { 15_000 }, &opts);
     random_histories(ctx, if q { 500 } else { 30_000 }, 30, 120, &opts, &all);
 }
 
@@ -418,6 +442,11 @@ pub fn c09(ctx: &mut Ctx) {
         Op::SetTcpSocket("8.8.4.4:443".parse().unwrap()),
         Op::SetClientInfo("Teku".into(), "v24.1.0".into(), Some("x86_64-linux".into())),
         Op::RemoveInsert(vec![k("x")], vec![(k("y"), vec![0x31; 26]), (k("udp"), vec![0x12, 0x34])]),
+        // a later pair SHRINKS an existing value: only the intermediate state would exceed the limit
+        Op::RemoveInsert(vec![], vec![(k("grow"), vec![0x31; 28]), (k("shrink"), vec![])]),
+        Op::RemoveInsert(vec![], vec![(k("shrink"), vec![0x32; 60]), (k("shrink"), vec![1])]),
+        // a key of 56 bytes (two-byte RLP header for the key itself)
+        Op::Insert(vec![b'k'; 56], Val::B(vec![0x44; 3])),
         Op::RemoveKey(k("x")),
         Op::RemoveUdp4,
         Op::RemoveTcpSocket,
@@ -449,6 +478,7 @@ pub fn c09(ctx: &mut Ctx) {
                         let mut rec = Rec::minimal(key, seq);
                         rec.map.insert(b"x".to_vec(), Item::S(vec![1, 2, 3]));
                         rec.map.insert(b"udp".to_vec(), Item::S(vec![0x11, 0x11]));
+                        rec.map.insert(b"shrink".to_vec(), Item::S(vec![0x77; 30]));
                         rec.map.insert(b"pad".to_vec(), Item::S(vec![0xa5; pad]));
                         let pairs: Pairs = rec.map.iter().map(|(k, v)| (k.clone(), rlp::enc_item(v))).collect();
                         let pred = predict(seq, &pairs, op, &ModelCtx { signer: &ms, nonsigner: &ms_other });
@@ -481,6 +511,35 @@ pub fn c09(ctx: &mut Ctx) {
                     run_hist_kt(ctx, kt, false, &h, &opts);
                     ctx.count("c09.targeted-cases");
                 }
+            }
+        }
+    }
+    // an otherwise EMPTY record and one inserted pair whose size alone carries the result over the sweep
+    for (kt, scheme) in kinds() {
+        let key = own_ref(scheme, OWN);
+        let other = own_ref(scheme, OTHER);
+        let ms = MSigner { scheme, pubkey: key.pub_bytes(), sig_len: if scheme == Scheme::Toy { None } else { Some(64) } };
+        let ms_other = MSigner { scheme, pubkey: other.pub_bytes(), sig_len: ms.sig_len };
+        for &seq in &[1u64, 127, 255] {
+            for len in 120..=230usize {
+                n += 1;
+                if !ctx.mine(n) {
+                    continue;
+                }
+                if ctx.expired() {
+                    return;
+                }
+                let rec = Rec::minimal(key, seq);
+                let op = if len % 2 == 0 { Op::Insert(k("v"), Val::B(vec![0x21; len])) } else { Op::InsertRaw(k("v"), rlp::enc_str(&vec![0x21; len])) };
+                let pairs: Pairs = rec.map.iter().map(|(k, v)| (k.clone(), rlp::enc_item(v))).collect();
+                let pred = predict(seq, &pairs, &op, &ModelCtx { signer: &ms, nonsigner: &ms_other });
+                let rs = record_size(&ms, pred.seq, &pred.pairs);
+                if !(280..=320).contains(&rs) {
+                    continue;
+                }
+                ctx.count("c09.minimal-record-cases");
+                let h = mk_history(scheme, OWN, OTHER, &Init::Decode(rec.bytes()), vec![Step { op, signer: Signer::Own }]);
+                run_hist_kt(ctx, kt, false, &h, &opts);
             }
         }
     }
